@@ -575,4 +575,41 @@ def readPepxmlX (pfx : Str) (excl : List String) (bin : Option Rat) (files : Lis
 /-- embedding of the default table's cells -/
 def liftCol (kc : String × List FV) : String × List XV := (kc.1, kc.2.map XV.fv)
 
+/-! ## Second pass: the dict-made columns at table level (optional attributes present / absent) and the
+`num_matched_peptides` column as `_log_features` receives it
+
+Nothing above is changed.  `attrOf` / `specCell` are declarative (what the property promises for a cell);
+`nmLogColumn` is the model of the float column that line 128 hands to `_log_features` after line 100 replaced
+the integer column by its `log10` — `featCol` above by-passes `logFeature` for that column, and
+`Props/C20Attrs.lean` derives the by-pass from `logFeature` itself instead of assuming it. -/
+
+/-- **spec**: the integer an optional attribute of the hit contributes under feature key `k`
+(`num_missed_cleavages`, `num_tol_term`, `num_matched_peptides`).  src: mokapot/parsers/pepxml.py:269-282 -/
+def attrOf (h : Hit) (k : String) : Option Int :=
+  if k = "missed_cleavages" then h.missed
+  else if k = "ntt" then h.ntt
+  else if k = "num_matched_peptides" then h.nmatched.map Int.ofNat
+  else none
+
+/-- **spec of a dict-made cell**: under key `k` the PSM of hit `h` holds the value of the hit's last search
+score of that name, else its optional attribute of that name, else nothing (NaN in the frame) -/
+def specCell (h : Hit) (k : String) : Option Cell :=
+  ((specScore h k).map Cell.text).or ((attrOf h k).map Cell.int)
+
+/-- an integer as the literal `str(int)` writes (never an exponent) -/
+def intNum (i : Int) : Num := { root := (i : Rat), pow := none }
+
+/-- **spec of an optional-attribute cell of the returned table** (attribute values below 10000, no search
+score of the same name): the integer itself, or missing -/
+def attrCell (v : Option Int) : FV := (v.map (fun i => FV.plain (i : Rat))).getD FV.missing
+
+/-- **spec of a `num_matched_peptides` cell**: `log10` of the count, or missing -/
+def nmSpecCell (v : Option Nat) : FV := (v.map (fun n => FV.log (n : Rat))).getD FV.missing
+
+/-- the `num_matched_peptides` column as `_log_features` receives it: line 100 has replaced the counts by
+`lg n` (`lg` stands for `np.log10` on the counts; a parameter), line 339 prints the floats with `str`.
+src: mokapot/parsers/pepxml.py:99-100, 128, 339 -/
+def nmLogColumn (lg : Nat → Rat) (col : List (Option Nat)) : Col :=
+  col.map (fun c => c.map (fun n => reprNum (lg n)))
+
 end Mk.Pepxml
